@@ -112,6 +112,13 @@ def run_gen():
     if rc != 0:
         raise CheckError("rs2v failed:\n" + out)
     sites = {}
+    try:
+        from . import docgen
+        docgen.generate(REPO, GEN)
+        sites["DocGen"] = "ok"
+    except Exception as e:
+        sites["DocGen"] = str(e)[:200]
+        open(os.path.join(GEN, "DocGen.v"), "w").write("(* GENERATED: extraction failed *)\nDefinition extraction_failed_DocGen : True := I.\n")
     for line in out.splitlines():
         if line.startswith("SITE-OK "):
             sites[line.split()[1]] = "ok"
